@@ -113,14 +113,15 @@ def rule_accepted_configurations(ctx):
         interp = Interp(model, ch)
         data_format = _new_format(interp, model, "delimited")
         chosen = {
-            "_item_delimiter": ch.choose("item", ITEM_VALUES + ["|", "\u20ac", "\x80"]),
-            "_quote_character": ch.choose("quote", QUOTE_VALUES),
+            "_item_delimiter": ch.choose("item", ITEM_VALUES + ["|", "\u20ac", "\x80", "\u00a5"]),
+            "_quote_character": ch.choose("quote", QUOTE_VALUES + ["%"]),
             "_escape_character": ch.choose("escape", ESCAPE_VALUES),
             "_line_delimiter": ch.choose("line", LINE_VALUES),
         }
         # the characters the writer inserts itself must exist in the encoding of the file
-        if chosen["_item_delimiter"] in ("\u20ac", "\x80"):
-            chosen["_encoding"] = ch.choose("encoding", ["cp1252", "ascii", "utf-8", "latin-1"])
+        if chosen["_item_delimiter"] in ("\u20ac", "\x80", "\u00a5") or chosen["_quote_character"] == "%":
+            # cp864 has no '%' (0x25 is the Arabic percent sign there), shift_jis writes the yen sign as the byte of '\\'
+            chosen["_encoding"] = ch.choose("encoding", ["cp1252", "ascii", "utf-8", "latin-1", "cp864", "shift_jis"])
         data_format.attrs.update(chosen)
         try:
             interp.call_function(model.func("cutplace.data.DataFormat.validate"), [data_format], {}, None)
@@ -143,10 +144,13 @@ def rule_accepted_configurations(ctx):
             return (key, "accepted although item delimiter = line delimiter", key)
         encoding = chosen.get("_encoding", data_format.attrs.get("_encoding"))
         if isinstance(encoding, str):
-            try:
-                item.encode(encoding)
-            except UnicodeError:
-                return (key, "accepted although the encoding cannot represent the item delimiter (every row of two items fails to be written)", key)
+            for what, character in (("item delimiter", item), ("quote character", quote), ("escape character", escape)):
+                try:
+                    survives = character.encode(encoding).decode(encoding) == character
+                except UnicodeError:
+                    survives = False
+                if not survives:
+                    return (key, "accepted although the %s does not survive the encoding (rows that need it cannot be written or do not read back)" % what, key)
         return (key, None, None)
 
     decide_kinds(ctx, "O12.3", "accepted delimited configurations are representable by the csv dialect", "cutplace.data.DataFormat.validate",
